@@ -380,6 +380,33 @@ fn run_product(rep: &mut Report, mode: Mode, tier: Tier) {
         rep.bounds["S-all"] = json!({"strings": n, "max_length": tier.pick(4, 5), "classes": CLASSES.iter().map(|c| RV::Str(c.to_string()).show()).collect::<Vec<_>>(), "as": ["string value", "object key with the string in an array"]});
         rep.absorb(t);
     }
+    // C-all: every character of U+0000..U+00FF (all 32 controls individually) and one
+    // representative of each wider class, inside containers whose width thresholds straddle
+    // the printed width - the width accounting of every escape is exercised on its own
+    {
+        let mut chars: Vec<char> = (0u32..0x100).filter_map(char::from_u32).collect();
+        chars.extend(['\u{7ff}', '\u{800}', '\u{2028}', '\u{2029}', '\u{d7ff}', '\u{e000}', '\u{ffff}', '\u{10000}', '\u{1f600}', '\u{10ffff}']);
+        let n = chars.len();
+        let t = explore::par_tally(chars, |c, t| {
+            let s1 = c.to_string();
+            let s2 = format!("a{c}{c}");
+            let vals = [
+                RV::Arr(vec![RV::Str(s1.clone())]),
+                RV::Obj(vec![(s1.clone(), RV::num("0"))]),
+                RV::Arr(vec![RV::Str(s2.clone()), RV::Obj(vec![(s2.clone(), RV::Str(s1.clone()))])]),
+            ];
+            for rv in vals {
+                let real = bridge::to_value(&rv);
+                for (_, base) in presets() {
+                    for_each_deviation(&rv, &base, 1, &mut |o| check_case(mode, &rv, &real, o, t));
+                }
+            }
+            t.nontrivial(&("C-all", c));
+            t.states += 1;
+        });
+        rep.bounds["C-all"] = json!({"characters": n, "rule": "every character U+0000..U+00FF + 10 wider representatives, as array item, object key and nested, under the presets and every single-field deviation with width thresholds straddling the printed widths"});
+        rep.absorb(t);
+    }
     // thorough: the full {0,1}^12 grid x 3 indents x limits on F-shape size <= 4
     if tier == Tier::Thorough && !budget.expired() {
         let values = f_shape(4);
